@@ -288,6 +288,18 @@ func (s *S) decide(site uint32) int {
 		}
 		return s.cur
 	}
+	if s.spec.Policy != "serial" && s.Step-s.lastSwitch > spinFairness && len(s.tasks) > 1 {
+		// whatever the policy, a task that has kept the token for millions of
+		// steps while others could run is probably spinning on something one of
+		// them has to do (a polled flag): it loses the token, and under pct its
+		// priority
+		s.lastSwitch = s.Step
+		if s.spec.Policy == "pct" {
+			s.lowPrio--
+			s.tasks[s.cur].prio = s.lowPrio
+		}
+		return s.pickOther(s.cur)
+	}
 	switch s.spec.Policy {
 	case "serial":
 		// a task that spins (runtime.Gosched, polling an atomic flag) while it
@@ -507,6 +519,10 @@ func (s *S) settle() {
 // serialFairness is the number of consecutive steps after which the serial
 // policy lets another runnable task run (see decide).
 const serialFairness = 200000
+
+// spinFairness is the same bound for the other policies (far above the length
+// of any ordinary call, so that it only catches spinning).
+const spinFairness = 3000000
 
 func (s *S) switchTo(next int, site uint32, exit bool) {
 	prev := s.cur
